@@ -7,6 +7,10 @@ Transcription of
 * `join_numeric/numeric_parser/mod.rs`            → `Parser` (`NumericParser`)
 * `join_numeric/mod.rs` (`concat`, `rewrite_gen`)  → `concat`, `loop`, `rewrite`
 
+The parser carries one switch per repair of the findings F1–F6 (`Variant`): `false` is the code as
+pinned, transcribed verbatim, `true` the behaviour after `fix_F<n>.patch`.  The harness probes the
+tree it is linked against and names the variant on every case line (`fix=<six 0/1>`).
+
 Conventions: the significand is the Rust `String` of ASCII digits as a `List Char`; `point: i32`
 with the sentinel `-1` is `Option Nat` (the Rust only ever tests `point >= 0` / `< 0`); `scale: usize`
 is `Nat`.  Places where the Rust would panic (`String::insert` past the end, `usize` underflow,
@@ -114,6 +118,27 @@ end SN
 
 /-! ## NumericParser -/
 
+/-- behaviour switches: `true` = after the repair of the finding with that number
+* `f1` `check_comma` refuses a separator when `tmp` already has its point ("1.5,000")
+* `f2` a unit directly after the point is rejected with POINT ("1.千5")
+* `f3` a unit directly after an incomplete separator group is rejected with COMMA ("1,千")
+* `f4` `last_large_unit`: a large unit has to be smaller than the previous one ("十万一万")
+* `f5` `has_unit`: `get_normalized` strips the leading zeros of a numeral with units ("0.1万")
+* `f6` `done()` returns before it touches the error state when the additions failed ("7十九三.") -/
+structure Variant where
+  f1 : Bool
+  f2 : Bool
+  f3 : Bool
+  f4 : Bool
+  f5 : Bool
+  f6 : Bool
+deriving DecidableEq, Repr, Inhabited
+
+/-- the code as pinned (findings F1–F6 present) -/
+def Variant.pinned : Variant := ⟨false, false, false, false, false, false⟩
+/-- all six repairs -/
+def Variant.repaired : Variant := ⟨true, true, true, true, true, true⟩
+
 inductive Err | none | point | comma
 deriving Repr, DecidableEq, Inhabited
 
@@ -129,6 +154,10 @@ structure Parser where
   total : SN := {}
   subtotal : SN := {}
   tmp : SN := {}
+  /-- `last_large_unit` (repair F4 only; never written by the pinned variant) -/
+  lastLarge : Option Int := none
+  /-- `has_unit` (repair F5 only; never written by the pinned variant) -/
+  hasUnit : Bool := false
 deriving Repr, DecidableEq, Inhabited
 
 /-- `CHAR_TO_NUM` -/
@@ -151,36 +180,48 @@ def new : Parser := {}
 
 def clear (p : Parser) : Parser :=
   { digitLength := 0, isFirstDigit := true, hasComma := false, hasHangingPoint := false, err := .none,
-    total := p.total.clear, subtotal := p.subtotal.clear, tmp := p.tmp.clear }
+    total := p.total.clear, subtotal := p.subtotal.clear, tmp := p.tmp.clear,
+    lastLarge := none, hasUnit := false }
 
-def checkComma (p : Parser) : Bool :=
+def checkComma (v : Variant) (p : Parser) : Bool :=
   if p.isFirstDigit then false
+  else if v.f1 && p.tmp.point.isSome then false
   else if !p.hasComma then decide (p.digitLength ≤ 3) && !p.tmp.isZero && !p.tmp.allZero
   else p.digitLength == 3
 
-def append (p : Parser) (c : Char) : Bool × Parser :=
+/-- `matches!(self.last_large_unit, Some(last) if n <= last)` (units are negated exponents) -/
+def notSmaller (p : Parser) (n : Int) : Bool :=
+  match p.lastLarge with
+  | some last => decide (n ≤ last)
+  | none => false
+
+def append (v : Variant) (p : Parser) (c : Char) : Bool × Parser :=
   if c = '.' then
     let p := { p with hasHangingPoint := true }
     if p.isFirstDigit then (false, { p with err := .point })
-    else if p.hasComma && !p.checkComma then (false, { p with err := .comma })
+    else if p.hasComma && !p.checkComma v then (false, { p with err := .comma })
     else
       let (ok, t) := p.tmp.setPoint
       if !ok then (false, { p with tmp := t, err := .point })
       else (true, { p with tmp := t, hasComma := false })
   else if c = ',' then
-    if !p.checkComma then (false, { p with err := .comma })
+    if !p.checkComma v then (false, { p with err := .comma })
     else (true, { p with hasComma := true, digitLength := 0 })
   else
     match charToNum c with
     | none => (false, p)
     | some n =>
-      if isSmallUnit n then
+      if v.f2 && decide (n < 0) && p.hasHangingPoint then (false, { p with err := .point })
+      else if v.f3 && decide (n < 0) && p.hasComma && p.digitLength != 3 then (false, { p with err := .comma })
+      else if isSmallUnit n then
         let tmp := p.tmp.shiftScale (-n).toNat
         let (ok, sub, tmp) := p.subtotal.add tmp
         if !ok then (false, { p with subtotal := sub, tmp := tmp })
         else (true, { p with subtotal := sub, tmp := tmp.clear, isFirstDigit := true, digitLength := 0,
-                             hasComma := false })
+                             hasComma := false, hasUnit := v.f5 || p.hasUnit })
       else if isLargeUnit n then
+        if v.f4 && p.notSmaller n then (false, p)
+        else
         let (ok, sub, tmp) := p.subtotal.add p.tmp
         if !ok || sub.isZero then (false, { p with subtotal := sub, tmp := tmp })
         else
@@ -188,30 +229,43 @@ def append (p : Parser) (c : Char) : Bool × Parser :=
           let (ok2, tot, sub) := p.total.add sub
           if !ok2 then (false, { p with total := tot, subtotal := sub, tmp := tmp })
           else (true, { p with total := tot, subtotal := sub.clear, tmp := tmp.clear, isFirstDigit := true,
-                               digitLength := 0, hasComma := false })
+                               digitLength := 0, hasComma := false,
+                               lastLarge := if v.f4 then some n else p.lastLarge,
+                               hasUnit := v.f5 || p.hasUnit })
       else
         (true, { p with tmp := p.tmp.append n.toNat, isFirstDigit := false,
                         digitLength := p.digitLength + 1, hasHangingPoint := false })
 
-def done (p : Parser) : Bool × Parser :=
+def done (v : Variant) (p : Parser) : Bool × Parser :=
   let (r1, sub, tmp) := p.subtotal.add p.tmp
   let (ret, p) :=
     if r1 then
       let (r2, tot, sub) := p.total.add sub
       (r2, { p with total := tot, subtotal := sub, tmp := tmp })
     else (false, { p with subtotal := sub, tmp := tmp })
-  if p.hasHangingPoint then (false, { p with err := .point })
+  if v.f6 && !ret then (false, p)
+  else if p.hasHangingPoint then (false, { p with err := .point })
   else if p.hasComma && p.digitLength != 3 then (false, { p with err := .comma })
   else (ret, p)
 
-def getNormalized (p : Parser) : Option (List Char) := p.total.toStr
+/-- `trim_start_matches('0')`, then a `0` again in front of nothing or of the point -/
+def stripLeadingZeros (s : List Char) : List Char :=
+  let t := s.dropWhile (· == '0')
+  match t with
+  | [] => ['0']
+  | c :: _ => if c == '.' then '0' :: t else t
+
+def getNormalized (v : Variant) (p : Parser) : Option (List Char) :=
+  match p.total.toStr with
+  | none => none
+  | some s => some (if v.f5 && p.hasUnit then stripLeadingZeros s else s)
 
 /-- feed characters until one is rejected: `(accepted count, all accepted, parser)` -/
-def feed (p : Parser) : List Char → Nat → Nat × Bool × Parser
+def feed (v : Variant) (p : Parser) : List Char → Nat → Nat × Bool × Parser
   | [], n => (n, true, p)
   | c :: cs, n =>
-    match p.append c with
-    | (true, p') => feed p' cs (n + 1)
+    match p.append v c with
+    | (true, p') => feed v p' cs (n + 1)
     | (false, p') => (n, false, p')
 
 /-- some number of the parser was marked as "would have panicked" -/
@@ -220,19 +274,19 @@ def anyBad (p : Parser) : Bool := p.total.bad || p.subtotal.bad || p.tmp.bad
 end Parser
 
 /-- `verif_parse`: `(n, err, done, normalized)`; `none` = panic -/
-def verifParse (text : List Char) : Option (Nat × Nat × Bool × List Char) :=
-  match Parser.new.feed text 0 with
+def verifParse (v : Variant) (text : List Char) : Option (Nat × Nat × Bool × List Char) :=
+  match Parser.new.feed v text 0 with
   | (n, false, p) => if p.anyBad then none else some (n, p.err.code, false, [])
   | (n, true, p) =>
-    let (d, p) := p.done
+    let (d, p) := p.done v
     if p.anyBad then none else
-    match p.getNormalized with
+    match p.getNormalized v with
     | none => none
     | some s => some (n, p.err.code, d, s)
 
 /-- `parse` of DESIGN §3: the normalised string when the whole text is accepted and `done()` holds -/
-def parse (text : List Char) : Option (List Char) :=
-  match verifParse text with
+def parse (v : Variant) (text : List Char) : Option (List Char) :=
+  match verifParse v text with
   | some (_, _, true, s) => some s
   | _ => none
 
@@ -272,13 +326,13 @@ def concatNodes (path : List Node) (b e : Nat) (norm : Option (List Char)) : Out
   | _, _ => .panic
 
 /-- `JoinNumericPlugin::concat` -/
-def concat (enableNormalize : Bool) (path : List Node) (b e : Nat) (p : Parser) : Outcome (List Node) :=
+def concat (v : Variant) (enableNormalize : Bool) (path : List Node) (b e : Nat) (p : Parser) : Outcome (List Node) :=
   match path[b]? with
   | none => .panic
   | some nb =>
     if !nb.numPos then .ok path
     else if enableNormalize then
-      match p.getNormalized with
+      match p.getNormalized v with
       | none => .panic
       | some nf =>
         if e - b > 1 || nf != nb.norm then concatNodes path b e (some nf) else .ok path
@@ -300,15 +354,15 @@ structure St where
   parser : Parser
 
 /-- feed the characters of one node; `none` = all accepted -/
-def feedNode (p : Parser) : List Char → Parser × Bool
+def feedNode (v : Variant) (p : Parser) : List Char → Parser × Bool
   | [] => (p, true)
   | c :: cs =>
-    match p.append c with
-    | (true, p') => feedNode p' cs
+    match p.append v c with
+    | (true, p') => feedNode v p' cs
     | (false, p') => (p', false)
 
 /-- one iteration of the `while` loop for `i = st.j` (already incremented) -/
-def step (en : Bool) (cats : List Nat) (st : St) : Outcome St :=
+def step (v : Variant) (en : Bool) (cats : List Nat) (st : St) : Outcome St :=
   let i := st.j
   match st.path[i]? with
   | none => .panic
@@ -319,13 +373,13 @@ def step (en : Bool) (cats : List Nat) (st : St) : Outcome St :=
       let (parser, begin) := match st.begin with
         | none => (st.parser.clear, i)
         | some b => (st.parser, b)
-      let (parser, ok) := feedNode parser s
+      let (parser, ok) := feedNode v parser s
       if ok then .ok { st with parser := parser, begin := some begin, j := i + 1 }
       else
-        -- begin_idx >= 0 holds here
-        if parser.err = .comma then
+        -- begin_idx >= 0 holds here; the run is restarted only if the flag was still set (8ae89d4)
+        if parser.err = .comma && st.commaAsDigit then
           .ok { st with parser := parser, commaAsDigit := false, j := begin, begin := none }
-        else if parser.err = .point then
+        else if parser.err = .point && st.periodAsDigit then
           .ok { st with parser := parser, periodAsDigit := false, j := begin, begin := none }
         else .ok { st with parser := parser, begin := none, j := i + 1 }
     else
@@ -338,9 +392,9 @@ def step (en : Bool) (cats : List Nat) (st : St) : Outcome St :=
       match st.begin with
       | none => .ok (after st.path st.parser (i + 1))
       | some b =>
-        let (d, parser) := st.parser.done
+        let (d, parser) := st.parser.done v
         if d then
-          match concat en st.path b i parser with
+          match concat v en st.path b i parser with
           | .ok path => .ok (after path parser (b + 2))
           | .err => .err | .panic => .panic | .fuel => .fuel
         else
@@ -350,28 +404,28 @@ def step (en : Bool) (cats : List Nat) (st : St) : Outcome St :=
           | some prev =>
             let ss := prev.norm
             if (parser.err = .comma && ss == [',']) || (parser.err = .point && ss == ['.']) then
-              match concat en st.path b (i - 1) parser with
+              match concat v en st.path b (i - 1) parser with
               | .ok path => .ok (after path parser (b + 3))
               | .err => .err | .panic => .panic | .fuel => .fuel
             else .ok (after st.path parser (i + 1))
 
-def loop (en : Bool) (cats : List Nat) : Nat → St → Outcome St
+def loop (v : Variant) (en : Bool) (cats : List Nat) : Nat → St → Outcome St
   | 0, st => if st.j < st.path.length then .fuel else .ok st
   | fuel + 1, st =>
     if st.j < st.path.length then
-      match step en cats st with
-      | .ok st' => loop en cats fuel st'
+      match step v en cats st with
+      | .ok st' => loop v en cats fuel st'
       | .err => .err | .panic => .panic | .fuel => .fuel
     else .ok st
 
 /-- the part after the loop -/
-def tail (en : Bool) (st : St) : Outcome (List Node) :=
+def tail (v : Variant) (en : Bool) (st : St) : Outcome (List Node) :=
   match st.begin with
   | none => .ok st.path
   | some b =>
     let len := st.path.length
-    let (d, parser) := st.parser.done
-    if d then concat en st.path b len parser
+    let (d, parser) := st.parser.done v
+    if d then concat v en st.path b len parser
     else
       if len = 0 then .panic else
       match st.path[len - 1]? with
@@ -379,18 +433,27 @@ def tail (en : Bool) (st : St) : Outcome (List Node) :=
       | some last =>
         let ss := last.norm
         if (parser.err = .comma && ss == [',']) || (parser.err = .point && ss == ['.']) then
-          concat en st.path b (len - 1) parser
+          concat v en st.path b (len - 1) parser
         else .ok st.path
 
 def rewriteFuel (n : Nat) : Nat := 4 * (n + 2) * (n + 2) + 16
 
-def rewrite (en : Bool) (cats : List Nat) (path : List Node) : Outcome (List Node) :=
-  match loop en cats (rewriteFuel path.length)
+def rewrite (v : Variant) (en : Bool) (cats : List Nat) (path : List Node) : Outcome (List Node) :=
+  match loop v en cats (rewriteFuel path.length)
       { path := path, j := 0, begin := none, commaAsDigit := true, periodAsDigit := true, parser := Parser.new } with
-  | .ok st => tail en st
+  | .ok st => tail v en st
   | .err => .err | .panic => .panic | .fuel => .fuel
 
 /-! ## driver entry -/
+
+/-- `fix=<six 0/1>`: which repairs the tree under test carries; absent = the pinned code -/
+def variant? (toks : List (List Char)) : Option Variant :=
+  match Wire.kv? toks "fix" with
+  | none => some Variant.pinned
+  | some s =>
+    match s.map (· == '1') with
+    | [a, b, c, d, e, f] => if s.all (fun x => x == '0' || x == '1') then some ⟨a, b, c, d, e, f⟩ else none
+    | _ => none
 
 def cpList? (sep : Char) (s : List Char) : Option (List Char) :=
   (Wire.allSome ((Wire.items sep s).map Wire.nat?)).map (·.map Char.ofNat)
@@ -409,16 +472,20 @@ def node? (s : List Char) : Option Node :=
 def showNodes (l : List Node) : String :=
   Wire.joinWith ";" (l.map (fun n => toString n.b ++ ":" ++ toString n.e ++ ":" ++ showCps "." n.norm))
 
-/-- `C15 parse idx=.. s=<code points>` → `n=<n> err=<e> done=<0|1> norm=<code points>`
+/-- every line carries `fix=<six 0/1>` (see `variant?`)
+    `C15 parse idx=.. s=<code points>` → `n=<n> err=<e> done=<0|1> norm=<code points>`
     `C15 pipeline idx=.. en=<0|1> cats=<masks> path=<b:e:numpos:stored-norm cps:surface cps;...>` → `ok toks=<b:e:cps;...>` -/
 def handle (op : List Char) (toks : List (List Char)) : String :=
+  match variant? toks with
+  | none => "bad-op"
+  | some v =>
   match String.ofList op with
   | "parse" =>
     match Wire.kv? toks "s" with
     | some s =>
       match cpList? ',' s with
       | some text =>
-        match verifParse text with
+        match verifParse v text with
         | none => "PANIC"
         | some (n, e, d, norm) =>
           "n=" ++ toString n ++ " err=" ++ toString e ++ " done=" ++ (if d then "1" else "0") ++ " norm=" ++ showCps "," norm
@@ -429,7 +496,7 @@ def handle (op : List Char) (toks : List (List Char)) : String :=
     | some en, some cats, some path =>
       match Wire.nat? en, Wire.natList? cats, Wire.allSome ((Wire.items ';' path).map node?) with
       | some en, some cats, some path =>
-        match rewrite (en != 0) cats path with
+        match rewrite v (en != 0) cats path with
         | .ok p => "ok toks=" ++ showNodes p
         | .err => "err"
         | .panic => "PANIC"
